@@ -58,6 +58,7 @@ package cmd
 //@        && (evS1(k) == "quiet" ==> evPtrIs(k, quiet)) && (evS1(k) == "stub" ==> evPtrIs(k, stub))
 //@   ensures [ignore_flags_registered] (exists k int :: old(tlen()) <= k && k < tlen() && evIs(k, "github.com/spf13/pflag.(*FlagSet).BoolVarP") && evS1(k) == "ignore-missing-params")
 //@        && (exists k int :: old(tlen()) <= k && k < tlen() && evIs(k, "github.com/spf13/pflag.(*FlagSet).BoolVarP") && evS1(k) == "ignore-missing-services")
+//@   ensures [registers_flags_only] forall k int :: old(tlen()) <= k && k < tlen() ==> !evIs(k, "os.Exit") && !evIs(k, "internal/cmd:buildRunner")
 //@   ensures [no_csv_flags] forall k int :: old(tlen()) <= k && k < tlen() ==> !evIs(k, "github.com/spf13/pflag.(*FlagSet).StringSliceVarP")
 
 // C16 / C10 / C09 / C18: the build command hands exactly its flags to the composition root - each ignore flag switches
